@@ -78,7 +78,9 @@ struct World {
 	bool qr;
 	BarnettSmartVTMF_dlog *A, *B;   // A: prover (player 0), B: verifier (player 1); keys exchanged, common key h
 	std::string group_text;
-	World(uint64_t seed, unsigned ps, unsigned qs, bool qrgroup) : psize(ps), qsize(qs), qr(qrgroup), A(NULL), B(NULL)
+	// life 0: the prover's instance is the one that generated the group, the verifier's is built from PublishGroup;
+	// life 1: both instances are stream-constructed from the published text of a third, generating instance
+	World(uint64_t seed, unsigned ps, unsigned qs, bool qrgroup, unsigned life = 0) : psize(ps), qsize(qs), qr(qrgroup), A(NULL), B(NULL)
 	{
 		with_coins(seed, 7000 + ps + qs + (qr ? 1 : 0), [&]() {
 			std::stringstream grp, grp2, ka, kb;
@@ -96,6 +98,7 @@ struct World {
 				group_text = grp.str();
 				B = new BarnettSmartVTMF_dlog(grp, ps, qs, true);
 			}
+			if (life == 1) { delete A; A = fresh(); }
 			if (!A->CheckGroup() || !B->CheckGroup()) throw std::runtime_error("harness: CheckGroup failed");
 			A->KeyGenerationProtocol_GenerateKey();
 			B->KeyGenerationProtocol_GenerateKey();
@@ -116,37 +119,65 @@ struct World {
 	}
 };
 
+// Object lifecycle of the Rabin keys every QR-encoding prover and verifier uses:
+//   0 as generated (public key: constructed from the secret key)     1 exported to text and imported again
+//   2 copy-constructed        3 copy-assigned over a default-constructed object
+//   4 copy-assigned over another, unrelated key                     5 copy-assigned, then the source object destroyed
 struct QRWorld {
-	unsigned keysize;
+	unsigned keysize, life;
 	TMCG_SecretKey *sec[2];
 	TMCG_PublicKey *pub[2];
 	TMCG_PublicKeyRing *ringP, *ringV;
-	QRWorld(uint64_t seed, unsigned ks) : keysize(ks)
+	QRWorld(uint64_t seed, unsigned ks, unsigned lf = 0) : keysize(ks), life(lf)
 	{
 		with_coins(seed, 8000 + ks, [&]() {
-			sec[0] = new TMCG_SecretKey("Alice", "alice@example.org", ks, false);
-			sec[1] = new TMCG_SecretKey("Bob", "bob@example.org", ks, false);
-			for (int i = 0; i < 2; i++) pub[i] = new TMCG_PublicKey(*sec[i]);
+			const char *nm[2] = {"Alice", "Bob"}, *em[2] = {"alice@example.org", "bob@example.org"};
+			for (int i = 0; i < 2; i++)
+			{
+				TMCG_SecretKey *bs = new TMCG_SecretKey(nm[i], em[i], ks, false);
+				TMCG_PublicKey *bp = new TMCG_PublicKey(*bs);
+				std::ostringstream os, op;
+				switch (life)
+				{
+					case 0: sec[i] = bs, pub[i] = bp; bs = NULL, bp = NULL; break;
+					case 1: os << *bs; op << *bp; sec[i] = new TMCG_SecretKey(os.str()), pub[i] = new TMCG_PublicKey(op.str()); break;
+					case 2: sec[i] = new TMCG_SecretKey(*bs), pub[i] = new TMCG_PublicKey(*bp); break;
+					case 3: sec[i] = new TMCG_SecretKey(), pub[i] = new TMCG_PublicKey(); *sec[i] = *bs, *pub[i] = *bp; break;
+					case 4:
+					{
+						TMCG_SecretKey other("Carol", "carol@example.org", ks, false);
+						sec[i] = new TMCG_SecretKey(other), pub[i] = new TMCG_PublicKey(other);
+						*sec[i] = *bs, *pub[i] = *bp;
+						break;
+					}
+					default: sec[i] = new TMCG_SecretKey(), pub[i] = new TMCG_PublicKey(); *sec[i] = *bs, *pub[i] = *bp; break;
+				}
+				if (life == 5) { delete bs; delete bp; bs = NULL, bp = NULL; }   // the assigned objects must not depend on their source
+				base_s[i] = bs, base_p[i] = bp;
+			}
 			ringP = new TMCG_PublicKeyRing(2), ringV = new TMCG_PublicKeyRing(2);
 			for (int i = 0; i < 2; i++) ringP->keys[i] = *pub[i], ringV->keys[i] = *pub[i];
 		});
 	}
+	TMCG_SecretKey *base_s[2];
+	TMCG_PublicKey *base_p[2];
 };
 
 inline uint64_t wkey(unsigned a, unsigned b, unsigned c) { return ((uint64_t)a << 40) | ((uint64_t)b << 20) | c; }
 
-inline World &world(unsigned ps, unsigned qs, bool qr = false)
+inline World &world(unsigned ps, unsigned qs, bool qr = false, unsigned life = 0)
 {
 	static std::map<uint64_t, World *> cache;
-	uint64_t k = wkey(ps, qs, qr ? 1 : 0);
-	if (!cache.count(k)) cache[k] = new World(mcenv::env_seed(), ps, qs, qr);
+	uint64_t k = wkey(ps, qs, (qr ? 1 : 0) + 2 * life);
+	if (!cache.count(k)) cache[k] = new World(mcenv::env_seed(), ps, qs, qr, life);
 	return *cache[k];
 }
-inline QRWorld &qrworld(unsigned ks)
+inline QRWorld &qrworld(unsigned ks, unsigned life = 0)
 {
 	static std::map<unsigned, QRWorld *> cache;
-	if (!cache.count(ks)) cache[ks] = new QRWorld(mcenv::env_seed(), ks);
-	return *cache[ks];
+	unsigned k = ks * 8 + life;
+	if (!cache.count(k)) cache[k] = new QRWorld(mcenv::env_seed(), ks, life);
+	return *cache[k];
 }
 
 // ------------------------------------------------------------------------------------------------ tag helpers
@@ -907,30 +938,54 @@ inline CellP make_skc(SKCWorld &S, size_t n, const std::vector<size_t> &pi, int 
 }
 
 // ================================================================================================ Groth VSSHE / Hoogh VRHE on VTMF stacks
-struct ShWorld { World *W; GrothVSSHE *vsP, *vsV; HooghSchoenmakersSkoricVillegasVRHE *vrP, *vrV; size_t nmax; unsigned le, acoin; Z a; std::string ctor_text;
-	ShWorld(uint64_t seed, World &w, size_t n, unsigned l, unsigned ac) : W(&w), vsP(NULL), vsV(NULL), vrP(NULL), vrV(NULL), nmax(n), le(l), acoin(ac)
+// sep: the commitment group of the GrothVSSHE instances.  0: the ElGamal group itself (constructor taking p_ENC,...);
+// 1: an independently generated PedersenCommitmentScheme of the same sizes (another q), 2: of larger sizes, 3: of smaller
+// sizes; for sep > 0 both instances are stream-constructed from "p q g h" of the ElGamal group followed by the published
+// commitment scheme (the only constructor that admits a separate commitment group).
+struct ShWorld { World *W; GrothVSSHE *vsP, *vsV; HooghSchoenmakersSkoricVillegasVRHE *vrP, *vrV; size_t nmax; unsigned le, acoin, sep; Z a; std::string ctor_text;
+	ShWorld(uint64_t seed, World &w, size_t n, unsigned l, unsigned ac, unsigned sp) : W(&w), vsP(NULL), vsV(NULL), vrP(NULL), vrV(NULL), nmax(n), le(l), acoin(ac), sep(sp)
 	{
-		with_coins(seed, 13000 + n * 89 + l, [&]() {
+		with_coins(seed, 13000 + n * 89 + l + 7919 * sp, [&]() {
 			BarnettSmartVTMF_dlog *A = w.A;
-			vsP = new GrothVSSHE(n, A->p, A->q, A->k, A->g, A->h, l, w.psize, w.qsize);
-			std::stringstream g;
-			vsP->PublishGroup(g);
-			ctor_text = g.str();
-			vsV = new GrothVSSHE(n, g, l, w.psize, w.qsize);
+			if (sep == 0)
+			{
+				vsP = new GrothVSSHE(n, A->p, A->q, A->k, A->g, A->h, l, w.psize, w.qsize);
+				std::stringstream g;
+				vsP->PublishGroup(g);
+				ctor_text = g.str();
+				vsV = new GrothVSSHE(n, g, l, w.psize, w.qsize);
+			}
+			else
+			{
+				unsigned ps2 = w.psize, qs2 = w.qsize;
+				if (sep == 2) ps2 += 64, qs2 += 32;
+				if (sep == 3) qs2 -= 32;
+				PedersenCommitmentScheme pc(n, ps2, qs2);
+				if (!mpz_cmp(pc.q, A->q)) throw std::runtime_error("harness: separate commitment group has the same order");
+				std::stringstream g;
+				g << A->p << std::endl << A->q << std::endl << A->g << std::endl << A->h << std::endl;
+				pc.PublishGroup(g);
+				ctor_text = g.str();
+				std::stringstream g1(ctor_text), g2(ctor_text);
+				// the size arguments are lower bounds checked by CheckGroup for the commitment group: declare the smaller one
+				vsP = new GrothVSSHE(n, g1, l, w.psize, qs2 < w.qsize ? qs2 : w.qsize);
+				vsV = new GrothVSSHE(n, g2, l, w.psize, qs2 < w.qsize ? qs2 : w.qsize);
+			}
 			if (acoin) { a = coin_a(acoin); vsP->SetupGenerators_publiccoin(a); vsV->SetupGenerators_publiccoin(a); }
 			if (!vsP->CheckGroup() || !vsV->CheckGroup()) throw std::runtime_error("harness: VSSHE CheckGroup failed");
 			vrP = new HooghSchoenmakersSkoricVillegasVRHE(A->p, A->q, A->g, A->h, w.psize, w.qsize);
 			std::stringstream g2;
 			vrP->PublishGroup(g2);
 			vrV = new HooghSchoenmakersSkoricVillegasVRHE(g2, w.psize, w.qsize);
+			if (sep > 0) { delete vrP; std::stringstream g3(g2.str()); vrP = new HooghSchoenmakersSkoricVillegasVRHE(g3, w.psize, w.qsize); }   // prover instance from the stream as well
 			if (!vrP->CheckGroup() || !vrV->CheckGroup()) throw std::runtime_error("harness: VRHE CheckGroup failed");
 		});
 	} };
-inline ShWorld &shworld(World &W, size_t nmax, unsigned le, unsigned acoin = 0)
+inline ShWorld &shworld(World &W, size_t nmax, unsigned le, unsigned acoin = 0, unsigned sep = 0)
 {
 	static std::map<std::string, ShWorld *> cache;
-	std::string k = drv::str(W.psize) + "/" + drv::str(W.qsize) + "/" + drv::str(nmax) + "/" + drv::str(le) + "/" + drv::str(acoin);
-	if (!cache.count(k)) cache[k] = new ShWorld(mcenv::env_seed(), W, nmax, le, acoin);
+	std::string k = drv::str(W.psize) + "/" + drv::str(W.qsize) + "/" + drv::str(nmax) + "/" + drv::str(le) + "/" + drv::str(acoin) + "/" + drv::str(sep) + "/" + drv::str((size_t)&W);
+	if (!cache.count(k)) cache[k] = new ShWorld(mcenv::env_seed(), W, nmax, le, acoin, sep);
 	return *cache[k];
 }
 
@@ -1119,7 +1174,7 @@ struct ComSt { int mode; size_t n; PedersenCommitmentScheme *P, *V; PedersenTrap
 	~ComSt() { delete alt; delete talt; for (size_t i = 0; i < m.size(); i++) { mpz_clear(m[i]), mpz_clear(mV[i]); delete [] m[i]; delete [] mV[i]; } delete P; delete V; delete tP; delete tV; } };
 
 // The "transcript" of a commitment opening is (c, r, m_1..m_n): one line each; the verifier is Verify(c, r, m).
-inline CellP make_commit(int mode /*0 Pedersen, 1 trapdoor*/, size_t nmax, size_t n, unsigned ps, unsigned qs, unsigned acoin = 0, bool without_h = true)
+inline CellP make_commit(int mode /*0 Pedersen, 1 trapdoor*/, size_t nmax, size_t n, unsigned ps, unsigned qs, unsigned acoin = 0, bool without_h = true, unsigned life = 0)
 {
 	CellP c(new Cell);
 	std::shared_ptr<ComSt> st(new ComSt);
@@ -1127,9 +1182,11 @@ inline CellP make_commit(int mode /*0 Pedersen, 1 trapdoor*/, size_t nmax, size_
 	with_coins(mcenv::env_seed(), 14000 + nmax * 7 + mode, [&]() {
 		std::stringstream g;
 		if (mode == 0) { st->P = new PedersenCommitmentScheme(nmax, ps, qs); st->P->PublishGroup(g); st->ctor_text = g.str(); st->V = new PedersenCommitmentScheme(nmax, g, ps, qs);
+			if (life) { delete st->P; std::stringstream g1(st->ctor_text); st->P = new PedersenCommitmentScheme(nmax, g1, ps, qs); }   // the committing side from the stream too
 			if (acoin) { st->a = coin_a(acoin); st->P->SetupGenerators_publiccoin(st->a, without_h); st->V->SetupGenerators_publiccoin(st->a, without_h); }
 			if (!st->P->CheckGroup() || !st->V->CheckGroup()) throw std::runtime_error("harness: Pedersen CheckGroup failed"); }
-		else { st->tP = new PedersenTrapdoorCommitmentScheme(ps, qs); st->tP->PublishGroup(g); st->tV = new PedersenTrapdoorCommitmentScheme(g, ps, qs);
+		else { st->tP = new PedersenTrapdoorCommitmentScheme(ps, qs); st->tP->PublishGroup(g); std::string tt = g.str(); st->tV = new PedersenTrapdoorCommitmentScheme(g, ps, qs);
+			if (life) { delete st->tP; std::stringstream g1(tt); st->tP = new PedersenTrapdoorCommitmentScheme(g1, ps, qs); }
 			if (!st->tP->CheckGroup() || !st->tV->CheckGroup()) throw std::runtime_error("harness: trapdoor CheckGroup failed"); }
 	});
 	for (size_t i = 0; i < n; i++)
@@ -1547,6 +1604,74 @@ inline std::vector<Spec> specs(int purpose, const std::string &tier, const std::
 						std::vector<size_t> p = rot_of(n, r);
 						add_spec(v, "vrhe2:le" + drv::str(L.le) + ":n" + drv::str(n) + ":r" + drv::str(r), 1, [L, n, p]() { return make_shuffle(shworld(world(L.ps, L.qs), n, L.le), 2, 2, n, p); });
 					}
+		}
+	// ---- object lifecycle (C03 only): the Rabin keys of all QR-encoding families taken through export/import, copy
+	//      construction, copy assignment (over a default object / over another key) and assignment + destruction of the
+	//      source; VTMF, commitment, VRHE instances with the prover's side stream-constructed as well
+	if (!c5 && want("qr"))
+		for (unsigned life = 1; life <= 5; life++)
+		{
+			unsigned s2 = thorough ? 8 : 2;
+			std::string L = ":life" + drv::str(life);
+			for (size_t type = 0; type < 4; type++)
+			{
+				add_spec(v, "qrmask:k2:t" + drv::str(type) + ":m448" + L, s2, [type, life]() { return make_qrcard(qrworld(448, life), 0, type, 2); });
+				for (size_t who = 0; who < 2; who++)
+					add_spec(v, "qrsecret:k2:t" + drv::str(type) + ":w" + drv::str(who) + ":m448" + L, s2, [type, who, life]() { return make_qrcard(qrworld(448, life), 1, type, 2, who); });
+			}
+			for (size_t n = 2; n <= (thorough ? 3 : 2); n++)
+			{
+				std::vector<size_t> pp = perm_of(n, fact(n) - 1), rr = rot_of(n, 1);
+				add_spec(v, "qrstack:k2:n" + drv::str(n) + ":p" + perm_str(pp) + ":m448" + L, s2, [n, pp, life]() { return make_stack_cc_qr(qrworld(448, life), n, pp, false, 2); });
+				add_spec(v, "qrstack:k2:n" + drv::str(n) + ":r1:m448" + L, s2, [n, rr, life]() { return make_stack_cc_qr(qrworld(448, life), n, rr, true, 2); });
+			}
+		}
+	if (!c5 && want("vtmf"))
+	{
+		for (int mode = 0; mode < 3; mode++)
+			add_spec(v, std::string("key") + drv::str(mode) + ":s256:stream", sd, [mode]() { return make_key(world(256, 160, false, 1), mode); });
+		for (int mode = 0; mode < 5; mode++)
+			add_spec(v, std::string("card") + drv::str(mode) + ":t3:s256:stream", sd, [mode]() { return make_card(world(256, 160, false, 1), mode, 3); });
+		for (int mode = 0; mode < 3; mode++)
+			add_spec(v, std::string("sigma") + drv::str(mode) + ":s256:stream", sd, [mode]() { return make_sigma(world(256, 160, false, 1), mode); });
+		add_spec(v, "flip:s256:stream", sd, []() { return make_flip(world(256, 160, false, 1)); });
+	}
+	if (!c5 && want("commit"))
+	{
+		add_spec(v, "pedersen:N3:n3:stream", sd, []() { return make_commit(0, 3, 3, 256, 160, 0, true, 1); });
+		add_spec(v, "pedersen:N3:n2:a1:stream", sd, []() { return make_commit(0, 3, 2, 256, 160, 1, true, 1); });
+		add_spec(v, "trapdoor:stream", sd, []() { return make_commit(1, 1, 1, 256, 160, 0, true, 1); });
+	}
+	// ---- GrothVSSHE with a commitment group that differs from the ElGamal group (C03 only; the TMCG_ wrappers demand
+	//      equal orders, so class level only), and the stream-constructed VRHE prover
+	if (!c5 && (want("groth") || want("hoogh")))
+		for (size_t li = 0; li < les.size(); li++)
+		{
+			LeCfg L = les[li];
+			for (unsigned sep = 1; sep <= 3; sep++)
+			{
+				if (sep == 3 && L.qs < 2 * L.le + 64 + 32) continue;     // a smaller commitment group must still satisfy |q| >= 2 l_e + 64
+				for (size_t n = 2; n <= 3; n++)
+					for (size_t extra = 0; extra < 2; extra++)
+					{
+						if (extra == 1 && n == 3 && !thorough) continue;
+						std::vector<size_t> pp = perm_of(n, n == 2 ? 1 : 3), rr = rot_of(n, 1);
+						unsigned sds = thorough ? 16 : 3;
+						for (int mode = 0; mode < 3; mode++)
+						{
+							if (want("groth") && le_ok(L.le, mode))
+								for (unsigned ac = 0; ac <= 1; ac++)
+								{
+									if (ac == 1 && (extra == 1 || sep == 3)) continue;
+									add_spec(v, "vsshe" + drv::str(mode) + ":le" + drv::str(L.le) + ":N" + drv::str(n + extra) + ":n" + drv::str(n) + ":p" + perm_str(pp) + ":sep" + drv::str(sep) + (ac ? ":a1" : ""), sds,
+										[L, n, extra, pp, mode, sep, ac]() { return make_shuffle(shworld(world(L.ps, L.qs), n + extra, L.le, ac, sep), 0, mode, n, pp); });
+								}
+							if (want("hoogh") && sep == 1 && extra == 0 && li != 1)
+								add_spec(v, "vrhe" + drv::str(mode) + ":g" + drv::str(L.ps) + ":n" + drv::str(n) + ":r1:stream", sds,
+									[L, n, rr, mode]() { return make_shuffle(shworld(world(L.ps, L.qs), n, L.le, 0, 1), 2, mode, n, rr); });
+						}
+					}
+			}
 		}
 	// ---- generators re-derived from a public coin: construct on both sides, both call SetupGenerators_publiccoin(a)
 	//      with the same a (two values of a), then the honest proof in all three forms, directly and through the wrappers
